@@ -2,9 +2,10 @@
 EXTENDS V1Archive
 (* Alpha-Twin: the text of Alpha in other case and wrapping -- same normalised text, its own key.
    COPYING.txt.dist, Murmur.hash-1.0: extensions inside the name. *)
-MCCands == {[name |-> "Alpha", kind |-> "lic"], [name |-> "Beta", kind |-> "lic"], [name |-> "Alpha.header", kind |-> "hdr"],
-            [name |-> "OnlyNotice", kind |-> "empty"],
-            [name |-> "Alpha-Twin", kind |-> "twin"],
-            [name |-> "COPYING.txt.dist", kind |-> "lic"], [name |-> "Murmur.hash-1.0", kind |-> "lic"],
-            [name |-> "README.md", kind |-> "other"], [name |-> "notes.text", kind |-> "other"]}
+MCCands == {[name |-> "Alpha", kind |-> "lic", dir |-> ""], [name |-> "Beta", kind |-> "lic", dir |-> ""], [name |-> "Alpha.header", kind |-> "hdr", dir |-> ""],
+            [name |-> "OnlyNotice", kind |-> "empty", dir |-> ""],
+            [name |-> "Alpha-Twin", kind |-> "twin", dir |-> ""],
+            [name |-> "COPYING.txt.dist", kind |-> "lic", dir |-> ""], [name |-> "Murmur.hash-1.0", kind |-> "lic", dir |-> ""],
+            [name |-> "Gamma", kind |-> "lic", dir |-> "third_party/licenses/"],     \* given with a path: archived under its file name
+            [name |-> "README.md", kind |-> "other", dir |-> ""], [name |-> "notes.text", kind |-> "other", dir |-> ""]}
 =============================================================================
